@@ -6,6 +6,7 @@ CHECK = {
     "level_note": "In-package test (sets the unexported stream id / chunk stream id); chunk stream ids 2..63 (the writer's range); payloads capped at 70 KB (1 MiB in 1/15 sessions, one 2^24-1 payload in quick); timestamps < 2^31; chunk sizes in [1, 2^31-1].",
     "parts": [
         {"name": "session", "pkg": "rtmp", "run": "^TestVerif_C01_Session$", "timeout": {"quick": 900, "thorough": 5400}},
+        {"name": "longsession", "pkg": "rtmp", "run": "^TestVerif_C01_LongSession$", "timeout": {"quick": 900, "thorough": 5400}},
         {"name": "concurrent", "pkg": "rtmp", "run": "^TestVerif_C01_Concurrent$", "race": True, "timeout": {"quick": 900, "thorough": 5400}},
         {"name": "wireclasses", "pkg": "rtmp", "run": "^TestVerif_C01_WireClasses$", "timeout": {"quick": 600, "thorough": 3600}},
     ],
